@@ -241,6 +241,11 @@ func (m *monC06) AfterCheck(w *World, tx *TxCtx) {
 	if nested {
 		tag = "nested"
 	}
+	if _, re := tx.Stash["recheck"]; re {
+		// still admitted by the re-check the mempool runs after every commit
+		tag += "-recheck"
+		w.Probe("c06.admitted-on-recheck")
+	}
 	for _, d := range sortedDenoms(want) {
 		offered := tx.Fee.AmountOf(d).BigInt()
 		if offered.Cmp(want[d]) != 0 {
